@@ -8,7 +8,7 @@ same-typed fields swapped) and that block field lookups (`find("to")`) land in t
 from . import mir
 
 
-def deep_sources(F, fn, du, op, self_local=1, max_nodes=400):
+def deep_sources(F, fn, du, op, self_local=1, max_nodes=400, ops_out=None):
     """returns (set of first-level field names of self reaching op, set of const strs passed to `find`-like calls on the way,
     set of callee names crossed)"""
     fields = set()
@@ -65,11 +65,15 @@ def deep_sources(F, fn, du, op, self_local=1, max_nodes=400):
                         if apl is not None:
                             st.append((apl["l"], tuple(apl["p"])))
                 elif k in ("binop",):
+                    if ops_out is not None:
+                        ops_out.add(("binop", rv["op"]))
                     for o in (rv["a"], rv["b"]):
                         apl = mir.op_place(o)
                         if apl is not None:
                             st.append((apl["l"], tuple(apl["p"])))
                 elif k == "unop":
+                    if ops_out is not None:
+                        ops_out.add(("unop", rv.get("op")))
                     apl = mir.op_place(rv["a"])
                     if apl is not None:
                         st.append((apl["l"], tuple(apl["p"])))
@@ -83,3 +87,75 @@ def closure_captures(F, fn, du, closure_path):
         if rv["k"] == "agg" and rv.get("closure") == closure_path:
             return rv["ops"]
     return []
+
+
+def slice_adt_fields(F, fn, op, adt_suffix, depth=0, _seen=None, max_nodes=600):
+    """Fields of an ADT (matched by path suffix) that are read anywhere in the interprocedural backward slice of `op`:
+    through assignments, aggregates, arithmetic and *all* arguments of calls; into the return value of workspace callees;
+    and, when the slice reaches a parameter, into the corresponding argument at every call site (both two levels deep)."""
+    _seen = _seen if _seen is not None else set()
+    out = set()
+    du = mir.DefUse(fn)
+    pl = mir.op_place(op) if "l" not in op else op
+    if pl is None:
+        return out
+    st = [(pl["l"], tuple(map(tuple, [[str(x) for x in q] for q in pl["p"]])))]
+    for q in pl["p"]:
+        if q[0] == "f" and len(q) > 2 and str(q[2]).endswith(adt_suffix):
+            out.add(q[1])
+    seen = set()
+    n = 0
+    argc = fn.get("argc", 0)
+    while st and n < max_nodes:
+        n += 1
+        local, _ = st.pop()
+        if local in seen:
+            continue
+        seen.add(local)
+        if 1 <= local <= argc and not fn.get("owner") and depth < 2:
+            # parameter: continue in the callers
+            for g in F.fns.values():
+                for bi, t in mir.calls(g):
+                    if (t.get("resolved") or t.get("callee")) == fn["path"] and len(t["args"]) >= local:
+                        k = (g["path"], bi, local)
+                        if k in _seen:
+                            continue
+                        _seen.add(k)
+                        out |= slice_adt_fields(F, g, t["args"][local - 1], adt_suffix, depth + 1, _seen)
+        for d in du.defs.get(local, []) + du.partial.get(local, []):
+            if d[0] == "call":
+                t = d[3]
+                for a in t["args"]:
+                    apl = mir.op_place(a)
+                    if apl is not None:
+                        for q in apl["p"]:
+                            if q[0] == "f" and len(q) > 2 and str(q[2]).endswith(adt_suffix):
+                                out.add(q[1])
+                        st.append((apl["l"], ()))
+                r = t.get("resolved") or t.get("callee") or ""
+                h = F.fns.get(r)
+                if h is not None and h["crate"].startswith("tx3") and depth < 2 and (r, "ret") not in _seen:
+                    _seen.add((r, "ret"))
+                    for bi, si, s in mir.stmts(h):
+                        if s["lhs"]["l"] == 0:
+                            for o in mir.all_operands_of_rv(s["rv"]):
+                                out |= slice_adt_fields(F, h, o, adt_suffix, depth + 1, _seen)
+                    for bi, t2 in mir.calls(h):
+                        if t2["dest"]["l"] == 0:
+                            for a in t2["args"]:
+                                out |= slice_adt_fields(F, h, a, adt_suffix, depth + 1, _seen)
+            else:
+                rv = d[3]["rv"]
+                pls = []
+                if rv["k"] in ("ref", "rawptr", "discr"):
+                    pls.append(rv["pl"])
+                for o in mir.all_operands_of_rv(rv):
+                    apl = mir.op_place(o)
+                    if apl is not None:
+                        pls.append(apl)
+                for apl in pls:
+                    for q in apl["p"]:
+                        if q[0] == "f" and len(q) > 2 and str(q[2]).endswith(adt_suffix):
+                            out.add(q[1])
+                    st.append((apl["l"], ()))
+    return out
